@@ -24,7 +24,7 @@ import (
 func init() {
 	Registry["C13"] = &Check{
 		Scenarios: c13Scenarios,
-		Rule: "client side: MaxRetransmits R in {0,1,2}, WatchdogInterval 3 s, RetransmitInterval 1 s on the virtual clock; the peer's reaction to the n-th DWR transmission is scripted from {success DWA after 0, 1/2 or 1 interval (1 = exact tie with the retransmission timer), DWA 5012 at once, silence}, scripts with other non-success answers (1001, 3004, a DWA without Result-Code), plus five burst scripts with answers delayed by 3/2 and 5/2 intervals (several late answers landing inside one later waiting window); all scripts of length <=2 (thorough 3), silence afterwards, so every run ends with the watchdog closing the connection; every schedule of watchdog thread, reader, timers and peer up to preemption bound 2 (thorough: unbounded for scripts of length <=1); peer steps and due timers are free transitions, so every ordering of answer / timer / reader is explored already at bound 0. Oracle: the observed (time, hop-by-hop id) sequence of DWRs and the close time must be one of the timelines of a reference model (branching only at exact ties). Server side: for every DWR from a handshaken peer over {both identity AVPs, Origin-Host missing, Origin-Realm missing, with Origin-State-Id} x ids {0,1,2^31,2^32-1}^2 the state machine must answer a success DWA with the local identity and the request's ids.",
+		Rule: "client side: MaxRetransmits R in {0,1,2}, WatchdogInterval 3 s, RetransmitInterval 1 s on the virtual clock; the peer's reaction to the n-th DWR transmission is scripted from {success DWA after 0, 1/2 or 1 interval (1 = exact tie with the retransmission timer), DWA 5012 at once, silence}, scripts with other non-success answers (1001, 3004, a DWA without Result-Code), plus five burst scripts with answers delayed by 3/2 and 5/2 intervals (several late answers landing inside one later waiting window); all scripts of length <=2 (thorough 3), silence afterwards, so every run ends with the watchdog closing the connection; every schedule of watchdog thread, reader, timers and peer up to preemption bound 2 (thorough: unbounded for scripts of length <=1); peer steps and due timers are free transitions, so every ordering of answer / timer / reader is explored already at bound 0. Oracle: the observed (time, hop-by-hop id) sequence of DWRs and the close time must be one of the timelines of a reference model (branching only at exact ties). Redial: the peer of a first connection leaves the first DWR unanswered and disconnects 0 or 1/2 interval later, the application redials at once with the same Client, and the second connection (peer answers two DWRs, then silence) must show the model's timeline measured from its own handshake (R in {0,1}). Two live connections of one Client (dialled one after the other, both peers answer every DWR): neither is closed and each sees one DWR per interval. Server side: for every DWR from a handshaken peer over {both identity AVPs, Origin-Host missing, Origin-Realm missing, with Origin-State-Id} x ids {0,1,2^31,2^32-1}^2 the state machine must answer a success DWA with the local identity and the request's ids.",
 		Assume: []string{"virtual time: writes and computation take no time", "data-race freedom between visible operations (audited separately with -race)"},
 		QuickBudget: 150, ThoroughBudget: 2400,
 	}
@@ -111,6 +111,12 @@ func c13Scenarios(tier string) []*Scenario {
 			out = append(out, c13Scenario(R, sc, burstBound))
 		}
 	}
+	for R := 0; R <= 1; R++ {
+		for _, d := range []time.Duration{0, c13I / 2} {
+			out = append(out, c13Redial(R, d, bound))
+		}
+	}
+	out = append(out, c13TwoLive(0, 0))
 	out = append(out, &Scenario{Name: "server/dwr-grid", Seq: c13Server})
 	return out
 }
@@ -487,4 +493,215 @@ func c13Server(r *SeqResult) {
 			}
 		}
 	}
+}
+
+// c13Redial: the peer of a first connection goes away in the middle of a watchdog round (it
+// leaves the first DWR unanswered and closes after d); the application redials at once with the
+// SAME Client; the peer of the second connection answers the first two DWRs and then falls
+// silent. The second connection's timeline, measured from its own handshake, must be the one the
+// reference model allows for the script [ok0 ok0] - whatever the goroutines of the first
+// connection still do.
+type c13RedialState struct {
+	c1, c2   *vnet.Conn
+	tx       []c13Tx
+	hs2At    time.Duration
+	ok1, ok2 bool
+	note     []string
+}
+
+var c13rd *c13RedialState
+
+func c13Redial(R int, d time.Duration, bound int) *Scenario {
+	script := []string{"ok0", "ok0"}
+	timelines := c13Model(R, script)
+	horizon := time.Duration(0)
+	for _, t := range timelines {
+		if t.closeAt > horizon {
+			horizon = t.closeAt
+		}
+	}
+	horizon += c13W + d + 2*c13W + 3*c13I
+	body := func() {
+		st := &c13RedialState{c1: vnet.NewConn("C1"), c2: vnet.NewConn("C2")}
+		c13rd = st
+		st.c1.Pieces, st.c2.Pieces = 1, 1
+		settings := &sm.Settings{OriginHost: "cli", OriginRealm: "test", VendorID: 13, ProductName: "prod",
+			HostIPAddresses: []datatype.Address{datatype.Address(net.ParseIP("10.0.0.2"))}}
+		mach := sm.New(settings)
+		cli := &sm.Client{Handler: mach, Dict: dict.Default, MaxRetransmits: uint(R), RetransmitInterval: c13I,
+			EnableWatchdog: true, WatchdogInterval: c13W,
+			AuthApplicationID: []*diam.AVP{diam.NewAVP(avp.AuthApplicationID, avp.Mbit, 0, datatype.Unsigned32(4))}}
+		vs.GoNamed("peer1", true, func() {
+			p := &Peer{C: st.c1}
+			for {
+				m := p.Next()
+				if m == nil {
+					return
+				}
+				switch m.Hdr.Code {
+				case 257:
+					st.c1.Deliver(peerAnswer(m, 2001, true))
+				case 280:
+					// the first DWR stays unanswered; the peer goes away d later
+					if d > 0 {
+						vs.TimeSleep(d)
+					}
+					vs.Event("peer1: disconnects in the middle of the watchdog round")
+					st.c1.PeerEOF()
+					return
+				}
+			}
+		})
+		vs.GoNamed("peer2", true, func() {
+			p := &Peer{C: st.c2}
+			n := 0
+			for {
+				m := p.Next()
+				if m == nil {
+					return
+				}
+				switch m.Hdr.Code {
+				case 257:
+					st.c2.Deliver(peerAnswer(m, 2001, true))
+				case 280:
+					st.tx = append(st.tx, c13Tx{At: vs.Now(), HbH: m.Hdr.HbH, Raw: m.Raw})
+					if n < len(script) {
+						st.c2.Deliver(peerAnswer(m, 2001, false))
+					}
+					n++
+				}
+			}
+		})
+		c, err := cli.NewConn(st.c1, "peer1")
+		st.ok1 = c != nil && err == nil
+		if !st.ok1 {
+			st.note = append(st.note, fmt.Sprintf("first dial failed: %v", err))
+			return
+		}
+		// the application's reconnect loop: redial as soon as the first connection is gone
+		vs.BlockObj("wait-first-connection-gone", st.c1, func() bool { return st.c1.Closed })
+		vs.Event("application: first connection gone, redialling with the same Client")
+		c2, err := cli.NewConn(st.c2, "peer2")
+		st.ok2, st.hs2At = c2 != nil && err == nil, vs.Now()
+		if !st.ok2 {
+			st.note = append(st.note, fmt.Sprintf("second dial failed: %v", err))
+		}
+	}
+	check := func(s *vs.Sched) string {
+		st := c13rd
+		if len(st.note) > 0 {
+			return strings.Join(st.note, " | ")
+		}
+		if !st.ok2 {
+			return "the second dial never completed (blocked: " + strings.Join(s.Blocked(), ", ") + ")"
+		}
+		var obs c13TL
+		obs.closeAt = -1
+		if st.c2.Closed {
+			obs.closeAt = st.c2.ClosedAt - st.hs2At
+		}
+		rounds := map[uint32]int{}
+		for _, t := range st.tx {
+			if _, ok := rounds[t.HbH]; !ok {
+				rounds[t.HbH] = len(rounds)
+			}
+			obs.tx = append(obs.tx, t.At-st.hs2At)
+			obs.round = append(obs.round, rounds[t.HbH])
+		}
+		for _, tl := range timelines {
+			if c13Same(tl, obs) {
+				return ""
+			}
+		}
+		var want []string
+		for _, tl := range timelines {
+			want = append(want, c13Fmt(tl))
+		}
+		return fmt.Sprintf("second connection of the same Client (dialled at %v, right after the first peer went away in the middle of a watchdog round): timeline %s measured from its handshake is not one the statement allows for R=%d and a peer that answers the first two DWRs (allowed: %s); panics %v",
+			st.hs2At, c13Fmt(obs), R, strings.Join(want, " or "), s.Panics())
+	}
+	outcome := func(s *vs.Sched) string {
+		st := c13rd
+		return fmt.Sprintf("tx=%d closed2=%v at %v hs2=%v", len(st.tx), st.c2.Closed, st.c2.ClosedAt, st.hs2At)
+	}
+	return &Scenario{Name: fmt.Sprintf("watchdog-redial/R%d/first-peer-leaves-after-%v", R, d), Body: body, Check: check, Outcome: outcome, Bound: bound, Horizon: horizon, Weight: 6}
+}
+
+// c13TwoLive: one Client keeps two connections open at the same time (dialled one after the
+// other); both peers answer every DWR. Neither connection may be closed by the client.
+type c13TwoState struct {
+	c    [2]*vnet.Conn
+	tx   [2][]time.Duration
+	ok   [2]bool
+	note []string
+}
+
+var c13two *c13TwoState
+
+func c13TwoLive(R int, bound int) *Scenario {
+	horizon := c13TwoRounds*c13W + time.Duration(R+1)*c13I + c13I/2 // long enough for an unacknowledged first round to end in a close
+	body := func() {
+		st := &c13TwoState{}
+		c13two = st
+		settings := &sm.Settings{OriginHost: "cli", OriginRealm: "test", VendorID: 13, ProductName: "prod",
+			HostIPAddresses: []datatype.Address{datatype.Address(net.ParseIP("10.0.0.2"))}}
+		mach := sm.New(settings)
+		cli := &sm.Client{Handler: mach, Dict: dict.Default, MaxRetransmits: uint(R), RetransmitInterval: c13I,
+			EnableWatchdog: true, WatchdogInterval: c13W,
+			AuthApplicationID: []*diam.AVP{diam.NewAVP(avp.AuthApplicationID, avp.Mbit, 0, datatype.Unsigned32(4))}}
+		for i := 0; i < 2; i++ {
+			i := i
+			st.c[i] = vnet.NewConn(fmt.Sprintf("C%d", i+1))
+			st.c[i].Pieces = 1
+			vs.GoNamed(fmt.Sprintf("peer%d", i+1), true, func() {
+				p := &Peer{C: st.c[i]}
+				for {
+					m := p.Next()
+					if m == nil {
+						return
+					}
+					switch m.Hdr.Code {
+					case 257:
+						st.c[i].Deliver(peerAnswer(m, 2001, true))
+					case 280:
+						st.tx[i] = append(st.tx[i], vs.Now())
+						st.c[i].Deliver(peerAnswer(m, 2001, false))
+					}
+				}
+			})
+			c, err := cli.NewConn(st.c[i], "peer")
+			st.ok[i] = c != nil && err == nil
+			if !st.ok[i] {
+				st.note = append(st.note, fmt.Sprintf("dial %d failed: %v", i+1, err))
+				return
+			}
+		}
+	}
+	check := func(s *vs.Sched) string {
+		st := c13two
+		if len(st.note) > 0 {
+			return strings.Join(st.note, " | ")
+		}
+		for i := 0; i < 2; i++ {
+			if st.c[i].Closed {
+				return fmt.Sprintf("one Client with two live connections, both peers answer every DWR with a success DWA: connection %d was closed by the client at %v (DWRs seen on it at %v)", i+1, st.c[i].ClosedAt, st.tx[i])
+			}
+			if fmt.Sprint(st.tx[i]) != fmt.Sprint(c13TwoWant()) {
+				return fmt.Sprintf("connection %d: DWRs at %v within %v, expected one every %v (both handshakes complete at time 0, every DWR is answered at once)", i+1, st.tx[i], horizon, c13W)
+			}
+		}
+		return ""
+	}
+	return &Scenario{Name: fmt.Sprintf("watchdog-two-live-connections/R%d", R), Body: body, Check: check, Bound: bound, Horizon: horizon, Weight: 6,
+		Outcome: func(s *vs.Sched) string { return fmt.Sprint(c13two.tx, c13two.c[0].Closed, c13two.c[1].Closed) }}
+}
+
+const c13TwoRounds = 1
+
+func c13TwoWant() []time.Duration {
+	var w []time.Duration
+	for k := 1; k <= c13TwoRounds; k++ {
+		w = append(w, time.Duration(k)*c13W)
+	}
+	return w
 }
